@@ -358,28 +358,32 @@ def genSetPatchesApi {α : Type} (dflt : α) (pix : NDArr α) (patches : PatchAr
 
 def genConvertPatchesList {α : Type} (dflt : α) (patcheslist : List (NDArr α)) (ncenter : Nat) : Except Err (NDArr α) :=
   (Np.intDivE (List.length patcheslist) ncenter).bind fun noffsets0 =>
-    (PList.nChannels0 patcheslist).bind fun nchannels0 =>
-      (PList.height0 patcheslist).bind fun height0 =>
-        (PList.width0 patcheslist).bind fun width0 =>
-          let patchesarray0 := (Except.ok (full [ncenter, noffsets0, nchannels0, height0, width0] dflt))
-          let totalindex0 := (0)
-          let r0 := MenpoModel.Py.forLoop (patchesarray0, totalindex0) ((List.range ncenter)) (fun acc0 it0 =>
-              let patchesarray1 := acc0.1
-              let totalindex1 := acc0.2
-              let p0 := it0
-              let r0 := MenpoModel.Py.forLoop (patchesarray1, totalindex1) ((List.range noffsets0)) (fun acc1 it1 =>
-                  let patchesarray0 := acc1.1
-                  let totalindex0 := acc1.2
-                  let o0 := it1
-                  let patchesarray1 := (Np.assignEntry dflt patchesarray0 p0 o0 patcheslist totalindex0)
-                  let totalindex1 := (totalindex0 + (1))
-                  (patchesarray1, totalindex1))
-              let patchesarray0 := r0.1
-              let totalindex0 := r0.2
-              (patchesarray0, totalindex0))
-          let patchesarray1 := r0.1
-          let totalindex1 := r0.2
-          patchesarray1
+    (PList.head patcheslist).bind fun h_0 =>
+    let nchannels0 := (PImg.nChannels h_0)
+    (PList.head patcheslist).bind fun h_1 =>
+    let height0 := (PImg.height h_1)
+    (PList.head patcheslist).bind fun h_2 =>
+    let width0 := (PImg.width h_2)
+    (PList.head patcheslist).bind fun h_3 =>
+    let patchesarray0 := (Except.ok (full [ncenter, noffsets0, nchannels0, height0, width0] dflt))
+    let totalindex0 := (0)
+    let r0 := MenpoModel.Py.forLoop (patchesarray0, totalindex0) ((List.range ncenter)) (fun acc0 it0 =>
+        let patchesarray1 := acc0.1
+        let totalindex1 := acc0.2
+        let p0 := it0
+        let r0 := MenpoModel.Py.forLoop (patchesarray1, totalindex1) ((List.range noffsets0)) (fun acc1 it1 =>
+            let patchesarray0 := acc1.1
+            let totalindex0 := acc1.2
+            let o0 := it1
+            let patchesarray1 := (Np.assignEntry dflt patchesarray0 p0 o0 patcheslist totalindex0)
+            let totalindex1 := (totalindex0 + (1))
+            (patchesarray1, totalindex1))
+        let patchesarray0 := r0.1
+        let totalindex0 := r0.2
+        (patchesarray0, totalindex0))
+    let patchesarray1 := r0.1
+    let totalindex1 := r0.2
+    patchesarray1
 
 def genSetPatchesAroundLandmarks {α : Type} (dflt : α) (pix : NDArr α) (lms : List Pt) (patches : PatchArg α)
     (offset : Option OffArg) (offsetindex : Option Nat) : Except Err (NDArr α) :=
